@@ -182,7 +182,7 @@ func suiteValidateX(e *emitter, depth int) {
 		rec(nil, depth)
 	}
 	bools := []bool{false, true}
-	seqs([]string{"*", "Authorization", "authorization", "X-A", "x-a", "sec-x", "bad name", "Access-Control-Request-Method"}, func(l []string) {
+	seqs([]string{"*", "Authorization", "authorization", "X-A", "x-a", "sec-x", "bad name", "Access-Control-Request-Method", "Author\u0130zation", "\u017fec-x"}, func(l []string) {
 		for _, cred := range bools {
 			c := base()
 			c.RequestHeaders, c.Credentialed = l, cred
